@@ -314,7 +314,7 @@ def _solve(base, neg, timeout_ms):
     t = time.time()
     r = s.check()
     dt = time.time() - t
-    if neg is not None and dt < 5:
+    if neg is not None and dt < 0.5:
         cross_check(s, str(r))
     return s, str(r), dt
 
@@ -334,11 +334,11 @@ def cross_check(solver, verdict):
         f.write(text)
         path = f.name
     try:
-        for tool, cmd in (('z3-4.8.12', ['/usr/bin/z3', '-T:20', path]), ('cvc5', ['cvc5', '--tlimit=20000', path])):
+        for tool, cmd in (('z3-4.8.12', ['/usr/bin/z3', '-T:5', path]), ('cvc5', ['cvc5', '--tlimit=5000', path])):
             if not shutil.which(cmd[0]):
                 continue
             try:
-                p = subprocess.run(cmd, capture_output=True, text=True, timeout=30)
+                p = subprocess.run(cmd, capture_output=True, text=True, timeout=8)
             except subprocess.TimeoutExpired:
                 XCHECK['skipped'] += 1
                 continue
@@ -401,7 +401,7 @@ def run_job(job, packages, known, replay_dir):
                 rec['kernels'][p.pkg + '.' + k] = rec['kernels'].get(p.pkg + '.' + k, 0) + v
         rec['wall_s'] = round(time.time() - t0, 3)
         return rec
-    XCHECK.update(left=job.get('xcheck', 1), done=0, agree=0, skipped=0, errors=[])
+    XCHECK.update(left=job.get('xcheck', 0), done=0, agree=0, skipped=0, errors=[])
     stack = [[]]
     goal_names = {}
     stop = False            # one reproduced violation per harness instance is enough: stop exploring it
